@@ -70,7 +70,7 @@ def main(ctx):
     def walks():
         return recipe.tlc_only('cond-walks', 'Cond', constants=WALKS, invariants=INV,
                                properties=PROPS, emit=True, simulate=5000 if thorough else 600,
-                               depth=120, seed=ctx.seed, timeout=1500, heap='3g')
+                               depth=120, seed=ctx.seed, timeout=1500, heap='3g', budget_ok=True)
 
     with ThreadPoolExecutor(5) as ex:
         fs = [ex.submit(small, i, c) for i, c in enumerate(smalls)]
